@@ -138,6 +138,10 @@ def extract(ix, te, ce, cls, chk, ESC=ESC):
         if sub is not None:
             rep0 = sub.value.args[1]
             rep0 = rep0.body if isinstance(rep0, ast.Lambda) else rep0
+            if isinstance(rep0, ast.Name):
+                for d in ast.walk(ev.node):
+                    if isinstance(d, ast.FunctionDef) and d.name == rep0.id and d.body and isinstance(d.body[-1], ast.Return):
+                        rep0 = d.body[-1].value
             try:
                 v.repl = parts(ce.eval(rep0, ev.module, None, env={'escape_char': ESC}))
             except NotConstant:
@@ -147,6 +151,13 @@ def extract(ix, te, ce, cls, chk, ESC=ESC):
     is_callable = isinstance(rep, ast.Lambda)
     if is_callable:
         rep = rep.body
+    elif isinstance(rep, ast.Name):
+        # a local one-expression function used as the replacement callable (same thing as the lambda)
+        defs = [n for n in ast.walk(ev.node) if isinstance(n, ast.FunctionDef) and n is not ev.node and n.name == rep.id]
+        body = [b for d in defs for b in d.body if not (isinstance(b, ast.Expr) and isinstance(b.value, ast.Constant))]
+        if len(defs) == 1 and len(body) == 1 and isinstance(body[0], ast.Return) and body[0].value is not None:
+            is_callable = True
+            rep = body[0].value
     try:
         word = ce.eval(rep, ev.module, None, env={'escape_char': ESC})
     except NotConstant as e:
